@@ -593,7 +593,40 @@ class Ctx:
             if not good:
                 ok_all = False
                 self.broken_build = {"dir": self.prop, "error": {"error": "theorem %s depends on %s" % (n, axs)}, "statement": n}
+        if self.tier == "thorough" and ok_all and os.environ.get("VERIF_NO_COQCHK") != "1":
+            ok_all = self.coqchk() and ok_all
         return ok_all
+
+    def coqchk(self):
+        """Independent re-check of Props.vo and everything it depends on (thorough tier)."""
+        d = os.path.join(COQ, self.prop)
+        rc, out = sh(["timeout", "2400", "coqchk", "-silent", "-o"] + coq_flags(self.prop) + ["PAF%s.Props" % self.prop],
+                     timeout=2460, cwd=d)
+        if rc != 0:
+            self.obligation("coqchk", "audit", False, out[-600:])
+            self.broken_build = {"dir": self.prop, "error": {"error": "coqchk failed: " + out[-400:]}, "statement": None}
+            return False
+        bad = []
+        section = None
+        axioms = []
+        for ln in out.splitlines():
+            t = ln.strip()
+            m = re.match(r"\* (Axioms|Constants/Inductives relying on type-in-type|Constants/Inductives relying on unsafe \(co\)fixpoints|Inductives whose positivity is assumed)\s*:\s*(.*)", t)
+            if m:
+                section = m.group(1)
+                if m.group(2) and m.group(2) != "<none>":
+                    (axioms if section == "Axioms" else bad).append(m.group(2))
+                continue
+            if t and section and not t.startswith("*") and not t.startswith("CONTEXT"):
+                (axioms if section == "Axioms" else bad).append(t)
+        foreign = [a for a in axioms if not a.startswith("Coq.")]
+        ok = not bad and not foreign
+        self.obligation("coqchk", "audit", ok,
+                        ("%d stdlib axioms/primitives in the loaded libraries" % len(axioms)) if ok else "foreign axioms %s, flags %s" % (foreign[:5], bad[:5]))
+        self.notes["coqchk_axioms"] = sorted(set(a for a in axioms if "Prim" not in a and "Uint63" not in a))[:40]
+        if not ok:
+            self.broken_build = {"dir": self.prop, "error": {"error": "coqchk: foreign axioms %s, flags %s" % (foreign[:5], bad[:5])}, "statement": None}
+        return ok
 
     def header(self, modules=("Model",)):
         lines = [
